@@ -366,7 +366,7 @@ static void gen_case(struct tcase *c, long idx)
         c->volume = true; c->tp = gi == 0 ? TP_UX : TP_TCP; c->mode = M_NB; c->bidir = false; c->endm = END_QUIESCE;
         c->size_class = 3; c->nsend = 34000; c->cap_class = 0; c->plan_class = 0; c->plan_setup = false; c->odd_sizes = false;
     }
-    if ((prop == P_C03 || prop == P_C02) && c->mode != M_NB && c->mode != M_MIXR && vrnd_p(&r, 70)) {
+    if ((prop == P_C03 || prop == P_C02 || prop == P_C01) && c->mode != M_NB && c->mode != M_MIXR && vrnd_p(&r, prop == P_C01 ? 40 : 70)) {
         if (vrnd_p(&r, 75)) { c->eintr_at = 1 + (int)vrnd_n(&r, 10); if (c->plan_class == 0 || c->plan_class == 1) c->plan_class = 2 + (int)vrnd_n(&r, 3); }
         else c->real_signal = true;
     }
